@@ -1378,7 +1378,7 @@ def check_for_errors(result):
 
     if "error" in result and result["error"]:
         # Server-side error
-        if "code" in result["error"]:
+        if isinstance(result["error"], dict) and "code" in result["error"]:
             # Code + Message
             code = result["error"]["code"]
             try:
@@ -1388,7 +1388,10 @@ def check_for_errors(result):
                 # Get the trace (jabsorb)
                 message = result["error"].get("trace", "<no error message>")
 
-            if -32700 <= code <= -32000:
+            if (
+                isinstance(code, utils.NUMERIC_TYPES)
+                and -32700 <= code <= -32000
+            ):
                 # Pre-defined errors
                 # See http://www.jsonrpc.org/specification#error_object
                 raise ProtocolError((code, message))
@@ -1399,7 +1402,7 @@ def check_for_errors(result):
 
         elif isinstance(result["error"], dict) and len(result["error"]) == 1:
             # Error with a single entry ('reason', ...): use its content
-            error_key = result["error"].keys()[0]
+            error_key = list(result["error"].keys())[0]
             raise ProtocolError(result["error"][error_key])
 
         else:
